@@ -37,7 +37,7 @@ CLAIMS = {
     "C06": ("histsim", "exploration",
             "deterministic simulation: seeded build/persist/drop/gc/config histories with per-process name and graph-key registries",
             "Seeded search over histories of several programs sharing subtrees; after every step all node names seen in the process must agree on (chunks, dtype), all graph keys on their values, merged computes on separate ones. Sampling, not proof.",
-            TB + "Known finding F15 (Blockwise advertised chunks depend on the unify policy while the name does not) matched by ablation.", "DESIGN.md 5/C06"),
+            TB + "Known findings F15 (Blockwise advertised chunks depend on the unify policy while the name does not), F2b (dask.persist on a raw expression whose rewrite changes the root grid: same key, other block shape) and F20, each matched by precondition + ablation.", "DESIGN.md 5/C06"),
     "C07": ("histsim", "exploration",
             "deterministic simulation: seeded pickle/rebuild histories + restart into a fresh interpreter under another PYTHONHASHSEED",
             "Seeded search over moments of serialization in a collection's life; rebuilt-in-process, rebuilt-in-fresh-interpreter and unpickled collections must agree on name, keys, chunks, dtype, Frisky output keys (and optimized graph keys for rebuilds) and values. Sampling, not proof.",
